@@ -44,6 +44,7 @@ package main
 import (
 	"context"
 	"encoding/json"
+	"errors"
 	"fmt"
 	"os"
 	"os/exec"
@@ -686,7 +687,11 @@ func (sg *stGen) callsGroup() {
 	p := sg.plugin()
 	pickStep := func() string {
 		if g.R.Intn(100) < 12 {
-			return []string{"nope", "", "Step0", "step0 ", "step9"}[g.R.Intn(5)]
+			return []string{"nope", "", "Step0", "step0 ", "step9",
+				// IDs a client may send: long, in multi-byte scripts (more than 64 bytes, fewer than 64 characters; a
+				// character straddling byte 48 / 64), long ASCII
+				"日本語のステップ名はここにあります、とても長い名前です", "шаг-которого-нет-в-этом-плагине-совсем-нет", "😀😀😀😀😀😀😀😀😀😀😀😀😀😀😀😀😀😀😀😀",
+				"ééééééééééééééééééééééééééééééééééééééééé", "step-" + strings.Repeat("x", 90), "a" + strings.Repeat("é", 40)}[g.R.Intn(11)]
 		}
 		return p[g.R.Intn(len(p))].ID
 	}
@@ -711,7 +716,7 @@ func (sg *stGen) callsGroup() {
 	for i := 0; i < 3; i++ {
 		stepID := pickStep()
 		sp := p.find(stepID)
-		sigID := []string{"sigA", "sigB", "sigC", "", "siga"}[g.R.Intn(5)]
+		sigID := []string{"sigA", "sigB", "sigC", "", "siga", "シグナルの名前がとても長い場合のテストです、長い長い", "сигнал-которого-нет-нигде-в-плагине-вообще", strings.Repeat("é", 41)}[g.R.Intn(8)]
 		if sp != nil && len(sp.Signals) > 0 && g.R.Intn(100) < 75 {
 			sigID = sp.Signals[g.R.Intn(len(sp.Signals))].ID
 		}
@@ -1136,6 +1141,7 @@ func stepsCmd(a Args) {
 	if a.Tier == "thorough" {
 		groups, seqs, trials = 5*a.N, 10*a.N, 3000
 	}
+	stStructOutputWitness(s)
 	for _, stream := range strings.Split(streams, ",") {
 		switch stream {
 		case "calls":
@@ -1180,5 +1186,75 @@ func stCtx(k int) context.Context {
 		return context.WithValue(context.Background(), stCtxKey{}, "v")
 	default:
 		return context.Background()
+	}
+}
+
+type stWInput struct {
+	Name string `json:"name"`
+}
+
+type stWOutput struct {
+	Message string `json:"message"`
+}
+
+// stStructOutputWitness (oracle-only; struct-mapped step data has no model case): a step whose input
+// and output are mapped to Go structs. Declared output ID with data that is NOT a value of the output's
+// struct type - in particular the MAP form of a fitting value - is non-conforming data and must be
+// reported as such; the typed Call given the raw map of a valid input answers with InvalidInputError,
+// it does not hand the map to the handler.
+func stStructOutputWitness(s *sink) {
+	type ret struct {
+		name string
+		data any
+		ok   bool
+	}
+	rets := []ret{
+		{"the struct", stWOutput{Message: "hi"}, true},
+		{"map form of a fitting value", map[string]any{"message": "hi"}, false},
+		{"map[any]any form", map[any]any{"message": "hi"}, false},
+		{"pointer to the struct", &stWOutput{Message: "hi"}, false},
+		{"another struct", stWInput{Name: "x"}, false},
+		{"nil", nil, false},
+	}
+	for _, r := range rets {
+		r := r
+		calls := 0
+		step := schema.NewCallableStep[stWInput]("hello",
+			schema.NewScopeSchema(schema.NewStructMappedObjectSchema[stWInput]("in", map[string]*schema.PropertySchema{
+				"name": schema.NewPropertySchema(schema.NewStringSchema(nil, nil, nil), nil, true, nil, nil, nil, nil, nil)})),
+			map[string]*schema.StepOutputSchema{"success": schema.NewStepOutputSchema(
+				schema.NewScopeSchema(schema.NewStructMappedObjectSchema[stWOutput]("out", map[string]*schema.PropertySchema{
+					"message": schema.NewPropertySchema(schema.NewStringSchema(nil, nil, nil), nil, true, nil, nil, nil, nil, nil)})), nil, false)},
+			nil,
+			func(ctx context.Context, in stWInput) (string, any) { calls++; return "success", r.data })
+		cs := schema.NewCallableSchema(step)
+		var oid string
+		var err error
+		res := hx.Guard(func() hx.Result {
+			oid, _, err = cs.CallStep(context.Background(), "r", "hello", map[string]any{"name": "n"})
+			return hx.Result{R: "ok"}
+		})
+		s.stats["struct-output-witness"]++
+		switch {
+		case res.R == "panic":
+			s.finding(Finding{Prop: "C11", What: "CallStep panicked for a handler returning " + r.name + " for a struct-mapped output: " + res.Msg})
+		case calls != 1:
+			s.finding(Finding{Prop: "C11", What: fmt.Sprintf("handler invoked %d times for a valid input (struct-mapped step)", calls)})
+		case r.ok && (err != nil || oid != "success"):
+			s.finding(Finding{Prop: "C11", What: "conforming output of a struct-mapped step rejected", Detail: []string{fmt.Sprint(err)}})
+		case !r.ok && err == nil:
+			s.finding(Finding{Prop: "C11", What: "handler returned " + r.name + " for a declared output mapped to a struct: the data does not satisfy the output schema, yet CallStep reported success"})
+		}
+		// the typed entry point given the raw map of a valid input
+		res = hx.Guard(func() hx.Result {
+			_, _, err = step.Call(context.Background(), "r2", map[string]any{"name": "n"})
+			return hx.Result{R: "ok"}
+		})
+		var inv schema.InvalidInputError
+		if res.R == "panic" {
+			s.finding(Finding{Prop: "C11", What: "Call of a struct-mapped step given the raw map of a valid input panicked instead of returning InvalidInputError: " + res.Msg})
+		} else if !errors.As(err, &inv) {
+			s.finding(Finding{Prop: "C11", What: "Call of a struct-mapped step given the raw map of a valid input: expected InvalidInputError", Detail: []string{fmt.Sprint(err)}})
+		}
 	}
 }
